@@ -91,3 +91,6 @@ def check(ctx):
         c.binding_selftest(ctx, "drop-event", "MergeTrace.tla", trace, {}, drop)
     ctx.assumptions = ["TLC 1.8.0 and CommunityModules are correct", "driver projection (payload tags, field equality) is correct",
                        "reception times are mapped 1 tick = 1 ms from a fixed base"]
+
+# round 6 (DESIGN.md 11.10)
+META["technique"] += " The sources' own index values are arbitrary (pseudo-random gaps, all 0, decreasing), so that the numbering of the result cannot lean on them."
